@@ -260,6 +260,40 @@ func main() {
 				e.Strs("proxy"+fn, facts, "Ingestor."+fn+": control flow over shards and replicas, source order")
 			}
 		}
+		// durable before ack: the tail of StartSearch (top-level statements after the info literal) and updateSearchInfo
+		{
+			if fd := f.Func("AsyncSearcher", "StartSearch"); fd == nil {
+				e.Missing("startSearchTail", "StartSearch not found")
+			} else {
+				var tail []string
+				seenInfo := false
+				for _, st := range fd.Body.List {
+					txt := f.Render(st)
+					if strings.HasPrefix(txt, "info := asyncSearchInfo") {
+						seenInfo = true
+						continue
+					}
+					if seenInfo {
+						tail = append(tail, txt)
+					}
+				}
+				e.Strs("startSearchTail", tail, "StartSearch: the top-level statements after the request info is built")
+			}
+			if fd := f.Func("AsyncSearcher", "updateSearchInfo"); fd == nil {
+				e.Missing("updateSearchInfoBody", "updateSearchInfo not found")
+			} else {
+				var body []string
+				for _, st := range fd.Body.List {
+					body = append(body, f.Render(st))
+				}
+				e.Strs("updateSearchInfoBody", body, "updateSearchInfo: statements in order")
+			}
+			if fd := f.Func("AsyncSearcher", "mustWriteSearchInfo"); fd != nil {
+				e.Strs("writeSearchInfoCalls", lib.Filter(f.Calls(fd.Body), func(c string) bool { return c == "json.Marshal" || c == "mustWriteFileAtomic" }), "mustWriteSearchInfo: encode, atomic write")
+			} else {
+				e.Missing("writeSearchInfoCalls", "mustWriteSearchInfo not found")
+			}
+		}
 		// key codec
 		if q, err := r.Load("seq/qpr.go"); err != nil {
 			e.Missing("qpr.go", err)
